@@ -307,6 +307,20 @@ func (c *Checked) checkAcceptance(i int, op Op, res *OpResult, pred Pred) {
 	if v == VCycle {
 		c.probe("cycle_reported")
 		c.probe("reject_cycle")
+		if op.Kind == OpProvide && pred == PredCycle {
+			// does the target scope's own view hold the cycle, or only a descendant's?
+			target := op.Scope
+			if f.Export {
+				target = 0
+			}
+			n := &MCtor{Fn: f.ID, Home: target, Origin: op.Scope, LP: f.LeafParams(), LR: f.LeafResults()}
+			c.M.link(n)
+			own := c.M.onCycle(n, func(x *MCtor) []*MCtor { return c.M.succView(x, target, false) })
+			c.M.unlink(n)
+			if !own {
+				c.probe("cycle_descendant_only")
+			}
+		}
 	}
 	if v != VOK {
 		if pred == PredDup {
@@ -1049,6 +1063,13 @@ func (c *Checked) checkInvokeModel(i int, op Op, res *OpResult, evs []Event) {
 	anyCycle := m.AnyCycle()
 	if len(cyc) > 0 {
 		c.probe("runtime_cycle")
+		for _, a := range cyc {
+			for _, b := range cyc {
+				if !m.IsAnc(a.Origin, b.Origin) && !m.IsAnc(b.Origin, a.Origin) {
+					c.probe("cycle_cross_sibling")
+				}
+			}
+		}
 		for _, n := range cyc {
 			if executed[n.Fn] {
 				c.viol(i, "cycle-member-executed", fmt.Sprintf("f%d lies on a dependency cycle the Invoke traverses, yet it ran", n.Fn), "C05")
